@@ -56,8 +56,19 @@ def setup(tag, nitems, npk, scalar, omit):
             for j, n in enumerate(use):
                 t += [nm(n), val(i, j)]
     t += ["mkloop", "0", "~", "1", nm("_zz"), "addpkt", "1", "1", nm("_zz"), "C1:" + hexs("z")]
+    nlh = 2
     if tag == "gone":
         t += ["itemloop", "0", nm(names[0]), "ldestroy", "2"]
+        nlh = 3
+    # a second block of the same CIF holding the SAME item names in loops with OTHER loop numbers (its loop 0 holds `_zz`,
+    # which the first block keeps in loop 1; the subject's names come second), with values at the same row numbers: a
+    # statement that forgets `container_id` next to a name or loop_num predicate shows in the whole-CIF dump
+    t += ["mkblock", "0", S.name_tok("blk2", False), "mkloop", "1", hexs("cat"), "1", nm("_ZZ"), "addpkt", str(nlh), "1", nm("_zz"), "C1:" + hexs("y")]
+    t += ["mkloop", "1", "~", str(nitems)] + [nm(n) for n in names]
+    for i in range(max(1, min(npk, 2))):
+        t += ["addpkt", str(nlh + 1), str(nitems)]
+        for j, n in enumerate(names):
+            t += [nm(n), val(i, j, 3)]
     return t, names
 
 
@@ -109,7 +120,8 @@ def violations(req, impl):
         before = S.parse_dump(steps[io - 1]["dumps"][0].split(" "))
     except S.Bad as e:
         return ["dump before the iterator: %s" % e]
-    blk = before[0]
+    bi = next((i for i, b in enumerate(before) if b["code"] == "blk"), 0)
+    blk = before[bi]
     subject = [l for l in blk["loops"] if "_zz" not in l["names"]]
     loop = subject[0] if subject else None
     rc = steps[io]["rc"]
@@ -136,7 +148,7 @@ def violations(req, impl):
     def expected_dump(packets):
         import copy
         b = copy.deepcopy(before)
-        for l in b[0]["loops"]:
+        for l in b[bi]["loops"]:
             if l["names"] == names:
                 l["packets"] = [p for p in packets if p is not None]
         return b
@@ -194,8 +206,11 @@ def violations(req, impl):
         except S.Bad as e:
             out.append("%s: %s" % (where, e))
             continue
-        if got != expected_dump(work):
-            out.append("%s: loop content is %r, expected %r" % (where, [l["packets"] for l in got[0]["loops"] if l["names"] == names] if got else got,
+        exp = expected_dump(work)
+        if got != exp and len(got) > bi and [l for l in got[bi]["loops"] if l["names"] == names] == [l for l in exp[bi]["loops"] if l["names"] == names]:
+            out.append("%s: the subject loop is as expected but another loop or container of the CIF changed: %s" % (where, (st["dumps"].get(0) or "")[:500]))
+        elif got != exp:
+            out.append("%s: loop content is %r, expected %r" % (where, [l["packets"] for l in got[bi]["loops"] if l["names"] == names] if len(got) > bi else got,
                                                                 [p for p in work if p is not None]))
     return out
 
